@@ -4,6 +4,7 @@
 //!   mstharness replay <script>            (impl output on stdout, oracle failures on stderr)
 //!   mstharness stack <depth>              (nested-chain diff on a 2 MiB thread)
 
+mod depth;
 mod exec;
 mod gen;
 mod refimpl;
@@ -112,6 +113,7 @@ fn main() {
                         lsmall(&mut g, 4, 2, shard, nshards);
                     }
                 }
+                "ldepth" => ldepth(&mut g, &mut r, if thorough { 4000 } else { 300 }),
                 "lrand" => {
                     lrand(&mut g, &mut r, if thorough { 20000 } else { 1500 }, if thorough { 300 } else { 40 });
                     lmut(&mut g, &mut r, if thorough { 5000 } else { 400 }, if thorough { 60 } else { 24 });
